@@ -613,7 +613,24 @@ fn handle_run_request(
                 Err(CommandError::Action(EvalAction::Replace(expr))) => {
                     let stack_frame = env.stack.0.last_mut().unwrap();
 
-                    stack_frame.evalled_values.pop();
+                    if stack_frame.exprs_to_eval.is_empty() {
+                        // Nothing has halted in this frame, so there
+                        // is no value to replace.
+                        return Response {
+                            kind: ResponseKind::RunCommand {
+                                message: "Nothing to replace: no expression is pending in this stack frame.".to_owned(),
+                                stack_frame_name: Some(env.top_frame_name()),
+                            },
+                            position: None,
+                            id,
+                        };
+                    }
+
+                    // Every frame starts with a placeholder value, so
+                    // never discard the last one.
+                    if stack_frame.evalled_values.len() > 1 {
+                        stack_frame.evalled_values.pop();
+                    }
                     stack_frame
                         .exprs_to_eval
                         .push((ExpressionState::NotEvaluated, expr.into()));
@@ -623,10 +640,16 @@ fn handle_run_request(
                 Err(CommandError::Action(EvalAction::Skip)) => {
                     let stack_frame = env.stack.0.last_mut().unwrap();
 
-                    stack_frame
-                        .exprs_to_eval
-                        .pop()
-                        .expect("Tried to skip an expression, but none in this frame.");
+                    if stack_frame.exprs_to_eval.pop().is_none() {
+                        return Response {
+                            kind: ResponseKind::RunCommand {
+                                message: "Nothing to skip: no expression is pending in this stack frame.".to_owned(),
+                                stack_frame_name: Some(env.top_frame_name()),
+                            },
+                            position: None,
+                            id,
+                        };
+                    }
 
                     eval_to_response(env, session)
                 }
